@@ -852,9 +852,12 @@ def call_macro(run: Any, name: str, n: ast.Call) -> Any:
     locs = dict(zip(params, args))
     fr = Frame(outer.func, outer.cls, outer.defcls, locs)
     run.frames.append(fr)
+    was = run.spec_mode
+    run.spec_mode = max(was, 1)
     try:
-        return V(run.spec(body), TBool)
+        return run.unalias(run.eval(ast.parse('(' + body.strip() + '\n)', mode='eval').body))
     finally:
+        run.spec_mode = was
         run.frames.pop()
 
 
@@ -942,8 +945,9 @@ def spec_call(run: Any, name: str, n: ast.Call) -> Any:
         # the first component of effect i, read back at a given type
         i = run.evalv(n.args[0]).t
         ty = run.p.tenv.parse(ast.literal_eval(n.args[1]))
-        inj, proj, tag = S.inj(ty)
-        return V(proj(ex.Eff.a(z3.Select(st.eff_arr, i))), ty)
+        return ex.coerce(
+            st, V(ex.Eff.a(z3.Select(st.eff_arr, i)), TAny), ty,
+        )
     if name == 'unchanged':
         conds = []
         for a in n.args:
